@@ -44,8 +44,8 @@ for s in (1, 2, 3, 4, 8):
 for s in (1, 2, 3, 4, 8):
     RUNS.append(_run('mod_lemma', 'h_mod_lemma', 16, 8, s, Q, cls='unbounded'))
 RUNS.append(_run('acquire_int', 'h_acquire_int', 16, 8, 2, Q, mode='INT', cls='unbounded'))
-for (w, a, s) in [(24, 8, 3), (64, 8, 2), (12, 4, 2), (33, 1, 3)]:
-    t = Q if w == 24 else TH
+for (w, a, s) in [(24, 8, 2), (24, 8, 3), (64, 8, 2), (12, 4, 2), (20, 4, 3), (33, 1, 3)]:
+    t = Q if (w, s) == (24, 2) else TH
     RUNS.append(_run('store_load', 'h_store_load', w, a, s, t, extra=SEQ_UW))
     RUNS.append(_run('update', 'h_update', w, a, s, t, extra=SEQ_UW))
     RUNS.append(_run('load_int', 'h_load_int', w, a, s, t, mode='INT'))
@@ -124,7 +124,7 @@ UNIT = dict(
     'sl.load.readonly': dict(deciding=True, text='load writes neither _seq nor any slot'),
     'sl.load.sync': dict(deciding=True, text='sync precondition: every load of _seq in load() is acquire-or-stronger and an acquire fence separates the relaxed data loads from the validating load of _seq (comments 1,2,3,6)'),
     'sl.store.sync': dict(deciding=True, text='sync precondition: the lock CAS is acquire-or-stronger, a release fence separates it from the relaxed data stores, the unlocking store is release-or-stronger (comments 4,5,7)'),
-    'sl.env.mod_lemma': dict(deciding=False, text='(k + e) mod slots == ((k mod slots) + e) mod slots for e < slots and all k below the no-wrap bound: the fact by which the INT environment (stated relative to the reader\'s last observation) covers rely R2'),
+    'sl.env.mod_lemma': dict(deciding=False, text='(k + e) mod slots == ((k mod slots) + e) mod slots, hence != k mod slots for 0 < e < slots, for all k below the no-wrap bound: the fact by which the INT environment (which protects the slot being read until _seq has advanced a full round) covers rely R2'),
     'sl.load.terminates': dict(deciding=True, text='[SOLO] slots > 1: load returns within 2 iterations from any state, odd _seq included'),
   },
   loop_obligation={'LOAD': 'sl.load.untorn', 'WAIT': 'sl.load.untorn', 'ACQ': 'sl.lock.acquire', 'ACQW': 'sl.lock.acquire'},
